@@ -654,3 +654,60 @@ func init() {
 	"strings"
 )`}}})
 }
+
+func init() {
+	// ---- C04 / C14 --------------------------------------------------------------------------
+	addMutant(Mutant{Name: "c04-min-length-constant-lowered", Props: []string{"C04", "C14"}, Rule: "R-BOUNDS", KeySub: "AcctRequest",
+		Why: "AcctRequestLen 9 -> 8: data[8] is read from an 8-byte input",
+		Edits: []Edit{{File: "accounting.go", Old: `const AcctRequestLen = 0x9`, New: `const AcctRequestLen = 0x8`}}})
+	addMutant(Mutant{Name: "c04-revert-packet-guard", Props: []string{"C04", "C14"}, Rule: "R-BOUNDS", KeySub: "Packet",
+		Why: "the repaired len(v) guard of Packet.UnmarshalBinary is removed again",
+		Edits: []Edit{{File: "packet.go", Old: `	if len(v) < MaxHeaderLength+int(h.Length) {
+		return fmt.Errorf("data length [%v] is smaller than the header and the indicated body length [%v]", len(v), h.Length)
+	}
+`, New: ``}}})
+	addMutant(Mutant{Name: "c04-clamp-inverted", Props: []string{"C04", "C14"}, Rule: "R-BOUNDS", KeySub: "readBuffer",
+		Why: "the clamp in readBuffer.string compares the wrong way round",
+		Edits: []Edit{{File: "packet.go", Old: `	if len(s) < n {
+		n = len(s)
+	}`, New: `	if len(s) > n {
+		n = len(s)
+	}`}}})
+	addMutant(Mutant{Name: "c04-header-guard-off-by-one", Props: []string{"C04", "C14"}, Rule: "R-BOUNDS", KeySub: "Header",
+		Why: "the header decoder accepts 11 bytes",
+		Edits: []Edit{{File: "header.go", Old: `	if len(data) < MaxHeaderLength {
+		return fmt.Errorf("Header size`, New: `	if len(data) < MaxHeaderLength-1 {
+		return fmt.Errorf("Header size`}}})
+	addMutant(Mutant{Name: "c04-uint16-reads-without-length-check", Props: []string{"C04", "C14"}, Rule: "R-BOUNDS", KeySub: "uint16",
+		Why: "uint16 reads two bytes whenever at least one is present",
+		Edits: []Edit{{File: "packet.go", Old: `	if len(s) >= 2 {
+		n := int(s[0])<<8 | int(s[1])`, New: `	if len(s) >= 1 {
+		n := int(s[0])<<8 | int(s[1])`},
+			{File: "packet.go", Old: `	if len(s) == 1 {
+		return b.int()
+	}
+`, New: ``}}})
+	addMutant(Mutant{Name: "c04-body-slice-up-to-cap", Props: []string{"C04"}, Rule: "R-BOUNDS", KeySub: "Packet",
+		Why: "the packet decoder compares the announced length with cap(v) instead of len(v)",
+		Edits: []Edit{{File: "packet.go", Old: `	if len(v) < MaxHeaderLength+int(h.Length) {`, New: `	if cap(v) < MaxHeaderLength+int(h.Length) {`}}})
+	addMutant(Mutant{Name: "c04-oversize-check-dropped-in-packet", Props: []string{"C04"}, Rule: "R-", KeySub: "",
+		Why: "Packet.UnmarshalBinary no longer limits the announced length (only matters with the 32-bit conversion)",
+		Edits: []Edit{{File: "header.go", Old: `	if h.Length > MaxBodyLength {
+		return fmt.Errorf("length field is too large, max size is 2^(16)")
+	}
+`, New: ``},
+			{File: "packet.go", Old: `	if h.Length > MaxBodyLength {
+		return fmt.Errorf("indicated size is too large to unmarshal; max allowed [%v] reported [%v]", MaxBodyLength, h.Length)
+	}
+	if len(v)`, New: `	if len(v)`}}})
+	addMutant(Mutant{Name: "c14-unchecked-assertion-in-handler", Props: []string{"C14"}, Rule: "R-PANIC", KeySub: "",
+		Why: "a handler asserts the context value's type without comma-ok",
+		Edits: []Edit{{File: "cmds/server/handlers/author.go", Old: `	a.RecordCtx(&request, tq.ContextUser, tq.ContextRemoteAddr, tq.ContextReqArgs, tq.ContextPort, tq.ContextPrivLvl)`, New: `	_ = request.Context.Value(tq.ContextConnRemoteAddr).(string)
+	a.RecordCtx(&request, tq.ContextUser, tq.ContextRemoteAddr, tq.ContextReqArgs, tq.ContextPort, tq.ContextPrivLvl)`}}})
+	addMutant(Mutant{Name: "c14-unsafe-setter-in-handler", Props: []string{"C14"}, Rule: "R-PANIC", KeySub: "",
+		Why: "a handler builds its reply packet with the test-only panicking option",
+		Edits: []Edit{{File: "cmds/server/config/aaa.go", Old: `func (a *defaultAccounter) Handle(response tq.Response, request tq.Request) {
+	response.Reply(`, New: `func (a *defaultAccounter) Handle(response tq.Response, request tq.Request) {
+	_ = tq.NewPacket(tq.SetPacketBodyUnsafe(tq.NewAcctReply()))
+	response.Reply(`}}})
+}
